@@ -232,6 +232,12 @@ def check_determinism(run: Run, cases):
     doc = Document("<r a='1'><a b='x'>t<b/></a><a/><!--c--><?t d?></r>")
     nsdoc = Document('<r xmlns:p="urn:p" a="1" p:b="y"><a b="x" p:b="z">t<b/></a><p:a b="1" p:b="1"/><a/><!--c--><?t d?></r>')
     contexts = [None, {"p": "urn:p"}, {"p": "urn:other"}, {"q": "urn:p"}, {"p": "urn:p", "q": "urn:q"}]
+    # results are compared by object identity: every node of both documents stays referenced for the whole
+    # stream, otherwise a garbage collection between two evaluations may evict an unreferenced wrapper (C04
+    # permits that) and the same node comes back as another object (false alarm met on seed 0)
+    from _delb.nodes import altered_default_filters
+    with altered_default_filters():
+        _held = [doc.root, nsdoc.root, *doc.root.iterate_descendants(), *nsdoc.root.iterate_descendants()]  # noqa: F841
 
     def outcome(expr, ctx):
         try:
